@@ -1297,3 +1297,77 @@ func namedOf(t types.Type) (*types.Named, bool) {
 	n, ok := types.Unalias(t).(*types.Named)
 	return n, ok
 }
+
+// forwardedInvoke: h is a repository function that does nothing but forward to one interface method — its only invoke
+// of pkg.iface.meth takes h's own parameters as arguments and every return hands back that call's results. It returns,
+// for each argument of the invoke, the index of the parameter of h that feeds it.
+func forwardedInvoke(h *ssa.Function, pkg, iface, meth string) ([]int, bool) {
+	if h == nil || h.Blocks == nil {
+		return nil, false
+	}
+	var inv *ssa.Call
+	n := 0
+	allInstrs(h, func(i ssa.Instruction) {
+		if invokeIs(i, pkg, iface, meth) {
+			n++
+			inv, _ = i.(*ssa.Call)
+		}
+	})
+	if n != 1 || inv == nil {
+		return nil, false
+	}
+	var idx []int
+	for _, a := range inv.Call.Args {
+		p, ok := strip(a).(*ssa.Parameter)
+		if !ok {
+			return nil, false
+		}
+		k := -1
+		for j, q := range h.Params {
+			if q == p {
+				k = j
+			}
+		}
+		if k < 0 {
+			return nil, false
+		}
+		idx = append(idx, k)
+	}
+	for _, r := range returnsOf(h) {
+		for _, v := range r.Results {
+			v = strip(v)
+			if ex, ok := v.(*ssa.Extract); ok {
+				v = ex.Tuple
+			}
+			if v != ssa.Value(inv) {
+				return nil, false
+			}
+		}
+	}
+	return idx, true
+}
+
+// invokeOrForwarder: i invokes pkg.iface.meth, or statically calls a forwarder of it (see forwardedInvoke). The returned
+// slice holds the method's arguments (without the receiver) as seen at i.
+func invokeOrForwarder(i ssa.Instruction, pkg, iface, meth string) ([]ssa.Value, bool) {
+	if invokeIs(i, pkg, iface, meth) {
+		return callOf(i).Args, true
+	}
+	cc := callOf(i)
+	if cc == nil || cc.IsInvoke() {
+		return nil, false
+	}
+	h := cc.StaticCallee()
+	idx, ok := forwardedInvoke(h, pkg, iface, meth)
+	if !ok {
+		return nil, false
+	}
+	var out []ssa.Value
+	for _, k := range idx {
+		if k >= len(cc.Args) {
+			return nil, false
+		}
+		out = append(out, cc.Args[k])
+	}
+	return out, true
+}
